@@ -34,6 +34,7 @@ def jobs(ctx, props):
             menu.append((tag, ('A',)))
         out.append((name + '/empty-targets', desc, ['A'], props,
                     {'reqs': 2 if quick else 3, 'req_menu': menu}))
+    out += schedcheck.timer_jobs(props, quick)
     return out
 
 
